@@ -313,3 +313,58 @@ func randomReuse(w *ev.Writer, h *Handler, texts []seqDoc, r *rand.Rand, chains,
 		reuseSequence(w, h, docs, ev.M{"src": "rand"})
 	}
 }
+
+// ---------------------------------------------------------------- garbage inserted into a string document
+
+// garbage that is no part of any spelling of a value (JsonForms section 5b); white space is left out on purpose:
+// trimming it is a leniency, not a loss of input
+var garbage = []string{"zz", "_", " 00", ":Anycast", "g", "!"}
+
+// insertGarbage: from the encoder's text "s" of value val build "g s", "s1 g s2" and "s g" (garbage after the
+// opening quote, in the middle, before the closing quote) and decode them. Judged by JsonForms!InsertOK: an error, or a
+// value different from val - never val itself, which would mean that part of the string was ignored.
+func insertGarbage(w *ev.Writer, h *Handler, text []byte, val any, extra ev.M) {
+	n := len(text)
+	if n < 2 || text[0] != '"' || text[n-1] != '"' {
+		return
+	}
+	for _, g := range garbage {
+		for _, pos := range []int{n - 1, 1, 1 + (n-2)/2} {
+			if pos != n-1 && (g == " 00" || g == "_" || g == ":Anycast") {
+				continue // in front of / inside a numeral, zeros and separators can be part of another spelling of the same value
+			}
+			if pos == 1+(n-2)/2 && n <= 3 {
+				continue // no middle
+			}
+			doc := append(append(append([]byte{}, text[:pos]...), g...), text[pos:]...)
+			m := ev.M{"k": "Ins", "ty": h.TD.M(), "name": h.Name, "val": val, "base": hex.EncodeToString(text), "doc": hex.EncodeToString(doc),
+				"garbage": g, "pos": pos, "where": map[int]string{n - 1: "end", 1: "start"}[pos], "gowf": b2i(json.Valid(doc))}
+			if m["where"] == "" {
+				m["where"] = "middle"
+			}
+			for k, v := range extra {
+				m[k] = v
+			}
+			w.Emit(ev.M{"k": "Begin", "name": h.Name, "doc": m["doc"], "direct": 0})
+			p, errc, pan := unmarshal(h, doc, false)
+			if pan != "" {
+				m["k"], m["op"], m["panic"] = "Panic", "unmarshal", pan
+				w.Emit(m)
+				continue
+			}
+			if errc != "" {
+				m["res"], m["back"] = "err", ""
+				w.Emit(m)
+				continue
+			}
+			back, pan := dumpSafe(h, p)
+			if pan != "" {
+				m["k"], m["op"], m["panic"] = "Panic", "dump", pan
+				w.Emit(m)
+				continue
+			}
+			m["res"], m["back"] = "ok", back
+			w.Emit(m)
+		}
+	}
+}
